@@ -50,12 +50,26 @@ def class_well_posed(topo, kinds, palette):
     return r
 
 
+def tableau_condition(nl):
+    """2-norm condition number of the row-equilibrated tableau (how well the circuit determines its own solution in binary64)"""
+    M, rhs, nidx, nb = rn.tableau(nl)
+    A = np.array([[complex(x) for x in row] for row in M], dtype=complex)
+    if A.shape[0] == 0:
+        return 1.0
+    rs = np.abs(A).max(axis=1)
+    rs[rs == 0] = 1.0
+    return float(np.linalg.cond(A / rs[:, None]))
+
+
 def float_tableau_solution(nl):
     """Independent float reference (sparse tableau solved with numpy)."""
     M, rhs, nidx, nb = rn.tableau(nl)
     A = np.array([[complex(x) for x in row] for row in M], dtype=complex)
     b = np.array([complex(x) for x in rhs], dtype=complex)
-    x = np.linalg.solve(A, b)
+    # the rows carry different units (volts, amperes, dimensionless): equilibrate them before solving
+    rs = np.abs(A).max(axis=1)
+    rs[rs == 0] = 1.0
+    x = np.linalg.solve(A / rs[:, None], b / rs)
     nn = len(nidx)
     phi = {n: x[k] for n, k in nidx.items()}
     phi[nl["ref"]] = 0j
